@@ -217,6 +217,9 @@ class C11(Check):
             calls = [i for i, s in enumerate(hist) if "pdu" in s]
             plan["crash"] = {"kind": rng.choice(["exception", "sigint"]), "at": rng.choice(calls), "delay": rng.choice([0.0, 0.0005, 0.002, 0.01, 0.05, 0.2])}
         plan["artifacts"] = rng.random() < 0.3
+        # separate configuration: transient "database is locked" errors on row inserts (another process reads the database);
+        # row ORDER is not judged there (the handler re-queues the row), completeness after close still is
+        plan["db_locked"] = sorted(rng.sample(range(0, 60), rng.choice([1, 2, 4]))) if rng.random() < 0.2 else []
         plan["net_seed"] = rng.getrandbits(30)
         plan["segment"] = rng.choice(["whole", "random"])
         return plan
@@ -251,6 +254,23 @@ class C11(Check):
         rec = world.rec
         world.net.policy_factory = lambda i, d: Policy(seed=plan["net_seed"] + 2 * i + (d == "s2c"), segment=plan["segment"])
         world.sql.latency = lambda c, n: plan["db_lat"]
+        locked = set(plan.get("db_locked") or [])
+        ins = {"n": 0, "fired": 0}
+
+        def db_fault(conn: Any, sql: str) -> Exception | None:
+            if "INSERT INTO scan_result" not in sql:
+                return None
+            k = ins["n"]
+            ins["n"] += 1
+            if k in locked:
+                ins["fired"] += 1
+                import sqlite3 as _sq
+
+                return _sq.OperationalError("database is locked")
+            return None
+
+        if locked:
+            world.sql.fault = db_fault
         world.install(capture=lambda r: "Could not log messages to database" in r.getMessage() or "Database worker died" in r.getMessage())
         # wire monitor at the transport seam, tagged with the calling task
         orig_w, orig_r = tbase.LinesTransportMixin.write, tbase.LinesTransportMixin.read
@@ -434,7 +454,37 @@ class C11(Check):
             memo[key] = best
             return best
 
-        pairing = match(0, 0, frozenset())
+        if ins["fired"]:
+            # injected storage fault: the handler re-queues the row, so only completeness and content are judged, not order
+            used_e: set[int] = set()
+            allx = mand + opt
+            pairing = []
+            for i_ in range(len(rows)):
+                vt_ = rows[i_][4] - world.epoch
+                best_k, best_d = None, None
+                for k_, x_ in enumerate(allx):
+                    if k_ in used_e or x_["req"] != row_reqs[i_]:
+                        continue
+                    hi_ = x_["x"]["t0"] + 1e-4
+                    lo_ = (x_["call"]["t0"] if x_["call"] is not None else x_["x"]["t0"] - 30.0) - 1e-4
+                    if not lo_ <= vt_ <= hi_:
+                        continue
+                    d_ = abs(x_["x"]["t0"] - vt_)
+                    if best_d is None or d_ < best_d:
+                        best_k, best_d = k_, d_
+                if best_k is None:
+                    pairing = None
+                    break
+                used_e.add(best_k)
+                pairing.append(allx[best_k])
+            if pairing is not None and any(k_ not in used_e for k_ in range(len(mand))):
+                miss = next(mand[k_] for k_ in range(len(mand)) if k_ not in used_e)
+                violation(res, "C11/rows", f"C11/rows:missing-after-close:storage-fault",
+                          f"a completed exchange has no row after the handler was closed although the storage fault was transient: {miss['req'].hex()} (actor {miss['x']['actor']}, t0={miss['x'].get('t0')}); rows {len(rows)}, injected 'database is locked' x{ins['fired']}")
+                return
+            bump(res["faults"], "db_locked_on_insert", ins["fired"])
+        else:
+            pairing = match(0, 0, frozenset())
         if pairing is None:
             # explain: first row / mandatory exchange that cannot be placed
             j = 0
@@ -504,7 +554,7 @@ class C11(Check):
         for o in outs:
             if not comp or comp[-1] != o:
                 comp.append(o)
-        res["shape"] = f"{crash['kind'] if crash else 'nocrash'}|tp{plan['tp']}|lat{plan['db_lat']}|{'tog' if toggles else ''}|" + ",".join(comp[:25]) + f"|{out['kind']}"
+        res["shape"] = f"{'dblocked|' if ins['fired'] else ''}{crash['kind'] if crash else 'nocrash'}|tp{plan['tp']}|lat{plan['db_lat']}|{'tog' if toggles else ''}|" + ",".join(comp[:25]) + f"|{out['kind']}"
         fault_n = sum(1 for o in plan["outcomes"][: peer.n_main] if o != "asis")
         res["nontrivial"] = bool(fault_n or toggles or crash)
         for o in plan["outcomes"][: peer.n_main]:
